@@ -85,6 +85,19 @@ pub fn cases(args: &[String]) {
         let p = SetSketchParams::new(b, m, a, q);
         let _ = std::fs::remove_file(&file);
         let missing = reload(dirp).0;
+        // a directory whose name is not valid UTF-8 (legal on Linux): missing file, then dump and reload
+        let (missing_odd, roundtrip_odd) = {
+            use std::os::unix::ffi::OsStrExt;
+            let odd = dirp.join(std::ffi::OsStr::from_bytes(b"donn\xe9es \xff"));
+            let _ = std::fs::create_dir_all(&odd);
+            let _ = std::fs::remove_file(odd.join("parameters.json"));
+            let mo = reload(&odd).0;
+            let d = catch_unwind(AssertUnwindSafe(|| p.dump_json(&odd).is_ok()));
+            let r = reload(&odd);
+            // 0: dumped and reloaded with the same m and q; 1: an error was reported; 2: reload panicked; 3: dump panicked
+            let same = matches!(r.1, Some((_, rm, _, rq)) if rm == m && rq == q);
+            (mo, match d { Err(_) => 3, Ok(_) => if r.0 == 2 { 2 } else if same { 0 } else { 1 } })
+        };
         let dumped = p.dump_json(dirp).is_ok();
         let text = std::fs::read_to_string(&file).unwrap_or_default();
         let bytes: Vec<u8> = text.as_bytes().to_vec();
@@ -138,7 +151,7 @@ pub fn cases(args: &[String]) {
             "b_ulps": opp2.map(|x| ulps(x.0, b.to_bits())), "a_ulps": opp2.map(|x| ulps(x.2, a.to_bits())),
             "b_digits": sig_digits(&btok), "a_digits": sig_digits(&atok), "mq_same": opp2.map(|x| (x.1, x.3)) == Some((m, q))});
         out.push(json!({"b": b.to_bits(), "m": m, "a": a.to_bits(), "q": q, "dumped": dumped, "bytes": bytes, "overwrite": overwrite, "near_overwrite": near_overwrite,
-                        "btok": btok.as_bytes(), "atok": atok.as_bytes(), "missing": missing, "roundtrip": roundtrip,
+                        "btok": btok.as_bytes(), "atok": atok.as_bytes(), "missing": missing, "missing_odd": missing_odd, "roundtrip_odd": roundtrip_odd, "roundtrip": roundtrip,
                         "prefixes": prefixes, "edits": ed}));
     }
     let _ = std::fs::remove_file(&file);
